@@ -689,7 +689,10 @@ func stubBBPPut(it *Interp, fr *frame, cc *ssa.CallCommon, a []Value) Value {
 		return nil
 	}
 	b := it.loadCell(p.Obj, p.Off).(*Slice)
-	if it.PoolStale > 0 && b.Obj != nil {
+	if it.Monitor && b.Obj != nil {
+		b.Obj.Tag = "pool-released"
+	}
+	if it.PoolStale > 0 && b.Obj != nil && !it.Monitor {
 		// whoever gets this buffer next may write anything into it
 		it.freshN["put"]++
 		k := it.freshN["put"]
@@ -735,6 +738,7 @@ func stubErrgroupWait(it *Interp, fr *frame, cc *ssa.CallCommon, a []Value) Valu
 	g := a[0].(*Ptr)
 	q := it.egQueue[g.Obj]
 	delete(it.egQueue, g.Obj)
+	var sets []map[*Object]bool
 	for len(q) > 0 {
 		c := 0
 		if len(q) > 1 {
@@ -742,7 +746,24 @@ func stubErrgroupWait(it *Interp, fr *frame, cc *ssa.CallCommon, a []Value) Valu
 		}
 		f := q[c]
 		q = append(q[:c:c], q[c+1:]...)
+		if it.Monitor {
+			it.closureWrites = map[*Object]bool{}
+			it.closureBase = it.nextObj
+		}
 		it.callValue(fr, f, nil, nil)
+		if it.Monitor {
+			sets = append(sets, it.closureWrites)
+			it.closureWrites = nil
+		}
+	}
+	for i := range sets {
+		for j := i + 1; j < len(sets); j++ {
+			for o := range sets[i] {
+				if sets[j][o] && it.path != nil {
+					it.path.MonitorHits = append(it.path.MonitorHits, fmt.Sprintf("C13.goroutine-write-sets-overlap: two goroutines started by the batch encoder both write object o%d (%s)", o.ID, o.Label))
+				}
+			}
+		}
 	}
 	return it.nilError()
 }
